@@ -246,9 +246,9 @@ RECURSIVE HasNumBounds(_)
 HasNumBounds(v) == IF v.st = "unk" THEN Has(v.rf, "lo") \/ Has(v.rf, "hi") ELSE \E m \in Members(v) : HasNumBounds(m)
 WeakPremise(e) ==
   /\ Len(e.a) = Len(e.b)
-  /\ AllRanked(e.a) /\ AllRanked(e.b) /\ ResRanked(e.rb)
+  /\ (\A i \in 1..Len(e.a) : e.a[i] = e.b[i] \/ (Ranked(e.a[i]) /\ Ranked(e.b[i]))) /\ ResRanked(e.rb)     \* (an operand left as it is needs no order in the model)
   /\ (ResRanked(e.ra) \/ (e.rb.ok /\ ~HasNumBounds(e.rb.val)))    \* an order is needed only against numeric bounds
-  /\ \A i \in 1..Len(e.a) : Admits(e.b[i], e.a[i])
+  /\ \A i \in 1..Len(e.a) : e.a[i] = e.b[i] \/ Admits(e.b[i], e.a[i])
 \* the placeholder REQUESTED by the generator (bq, logged when it differs from what the library built) admits the replaced part,
 \* but the value the refinement API actually returned for those statements does not: the API turned true statements about the
 \* replaced part into a value that excludes it
